@@ -17,10 +17,11 @@
 (*       ss = <nodes with a connection left in CIJkcore>; coreness[ss] = k     *)
 (*                                                                             *)
 (* Kind = "bu" | "bd" | "wu".  The bound is carried doubled (b2 = 2k / 2s).    *)
-(* The coreness loop is modelled as intended by its docstring: k runs up to    *)
-(* the largest attainable degree KTop (n-1 for bu, 2(n-1) for bd) and ss are   *)
-(* the nodes that still have a connection (for bu exactly the code's column    *)
-(* sums > 0 and range(N)).                                                     *)
+(* The coreness loop runs k = 0..KTop, the largest attainable degree (n-1 for   *)
+(* bu = range(N); 2(n-1) for bd = range(2N-1)), and ss are the nodes that still *)
+(* have a connection in CIJkcore (bu: column sums > 0; bd: column + row sums    *)
+(* > 0).  knv records the size for every k of the loop; the code keeps its      *)
+(* first N entries.                                                            *)
 EXTENDS KCore
 CONSTANTS N, Kind, WMax
 VARIABLES A, mode, b2, M, iter, order, level, kn, pc, kc, coreness, knv, core
